@@ -63,6 +63,8 @@ class Prog:
         self.rslot = 0
         self.nelems_checked = 0
         self.safe_mode = False
+        self.fillmode = False       # dataset fill mode (PnetCDF default: NC_NOFILL)
+        self.new_vars = []          # variables defined since the last enddef
 
     # -------------------------------------------------------------- emit helpers
     def emit(self, ranks, op, expect=None, **kw):
@@ -94,6 +96,8 @@ class Prog:
 
     def def_var(self, name, xtype, dimids):
         vid = self.fm.add_var(name, xtype, dimids)
+        self.fm.vars[vid].nofill = not self.fillmode
+        self.new_vars.append(vid)
         self.emit("*", "def_var", Expect(0, kv={"id": vid}, what="def_var"), f=self.f, name=hx(name), xtype=xtype, dimids=ints(dimids) if dimids else "-", ndims=len(dimids))
         return vid
 
@@ -131,6 +135,44 @@ class Prog:
         else:
             self.all_ok("enddef")
         self.defmode = False
+        # fill-mode variables that are new in this enddef are filled: fixed-size ones completely, record
+        # variables over the records that exist already
+        for vid in self.new_vars:
+            v = self.fm.vars[vid]
+            if not v.nofill:
+                v.data[...] = np.array(v.fill_value()).astype(v.dt)
+                v.mask[...] = True
+        self.new_vars = []
+
+    def set_fill(self, on):
+        self.emit("*", "set_fill", Expect(0, kv={"old": 0 if self.fillmode else 0x100}, what="set_fill"), f=self.f, mode=0 if on else 0x100)
+        self.fillmode = on
+        for v in self.fm.vars:          # overrides the mode of every variable defined so far
+            v.nofill = not on
+
+    def def_var_fill(self, vid, nofill, value=None):
+        v = self.fm.vars[vid]
+        kw = {}
+        if value is not None:
+            kw["fill"] = "hex:" + np.array([value]).astype(v.dt).tobytes().hex()
+        else:
+            kw["fill"] = "-"
+        self.emit("*", "def_var_fill", Expect(0, what="def_var_fill"), f=self.f, v=vid, nofill=int(nofill), **kw)
+        v.nofill = bool(nofill)
+        if value is not None and not nofill:
+            v.fillval = np.array([value]).astype(v.dt)[0]
+            v.atts = [a for a in v.atts if a.name != b"_FillValue"] + [cs.Att(b"_FillValue", v.xtype, np.array([value]).astype(v.dt) if v.xtype != 2 else bytes([int(value)]))]
+
+    def fill_var_rec(self, vid, rec, expect=0):
+        v = self.fm.vars[vid]
+        self.emit("*", "fill_var_rec", Expect(expect, what="fill_var_rec v%d rec %d" % (vid, rec)), f=self.f, v=vid, rec=rec)
+        if expect == 0:
+            if rec + 1 > self.fm.numrecs:
+                self.fm.numrecs = rec + 1
+                for w in self.fm.vars:
+                    w.ensure_recs(self.fm.numrecs)
+            v.data[rec] = np.array(v.fill_value()).astype(v.dt)
+            v.mask[rec] = True
 
     def redef(self):
         self.all_ok("redef")
